@@ -51,7 +51,7 @@ def demo_info(d):
     m = re.search(r"cp\s+\S*_test\.go\s+(\S+)", run)
     if m:
         dest = m.group(1)
-        dest = re.sub(r"^/tmp/seed[23456]?/C\d+/", "", dest)
+        dest = re.sub(r"^/tmp/seed\d*/C\d+/", "", dest)
         dest = re.sub(r"^<[a-z ]+>/", "", dest)
     mm = re.search(r"mkdir -p (\S+)", run)
     rm = re.search(r"go test[^\n]*?-run\s+'?\"?([^'\"\s]+)", run)
